@@ -103,6 +103,20 @@ pub fn tiny(ctx: &Ctx) {
     }
 }
 
+/// a record without bits at every position of the prototype (the scene space of C03), written by
+/// the real writer
+pub fn zero_width_positions(ctx: &Ctx) {
+    let (sc, _) = crate::c03::zero_width_scene(ctx);
+    let c = &sc.clouds[0];
+    let mut cl = cloud(c.proto.clone(), c.points.len(), 3);
+    cl.points = c.points.clone();
+    cl.cap = [None, Some(1), Some(3)][ctx.pick("cap", 3)];
+    let p = Program { guid: "g".into(), ops: vec![Op::Cloud(cl)], ..Default::default() };
+    if roundtrip(ctx, &p, P).is_some() {
+        ctx.nontrivial();
+    }
+}
+
 /// S9: calls the writer must refuse, between the accepted points: the record count, the points and
 /// their order are those of the accepted calls only
 pub fn s9(ctx: &Ctx) {
